@@ -19,6 +19,7 @@ import (
 	"strings"
 	"testing"
 
+	"github.com/imroc/req/v3/internal/dump"
 	"github.com/imroc/req/v3/internal/verifh"
 )
 
@@ -66,9 +67,17 @@ func c04CloneSegs(segs [][]byte) [][]byte {
 }
 
 // c04AliasFork: readContinuedLineSlice until the blank line or the first error.
-func c04AliasFork(segs [][]byte, B int) (ans string, nlines int) {
+func c04AliasFork(segs [][]byte, B int, dumpOn bool) (ans string, nlines int) {
 	br := bufio.NewReaderSize(&c04SegReader{segs: c04CloneSegs(segs)}, B)
-	tr := newTextprotoReader(br, nil)
+	var ds dump.Dumpers
+	if dumpOn {
+		// the dumping readLine closure (ReadSlice-based) instead of bufio.ReadLine
+		d := newDumper(&DumpOptions{Output: io.Discard, ResponseHeader: true})
+		go d.Start()
+		defer d.Stop()
+		ds = dump.Dumpers{d}
+	}
+	tr := newTextprotoReader(br, ds)
 	var lines []string
 	ending := ""
 	for i := 0; i < 100000; i++ {
@@ -138,11 +147,13 @@ func TestVerif_C04_alias(t *testing.T) {
 		"header blocks (short lines, bare LF, folded, blank-padded, longer than the buffer, CRLF straddling the buffer end, non-letter line starts, invalid lines, EOF at every kind of place) x read buffer {16,17,32,64} x "+
 			"EVERY segmentation into two segments, every one with a 1-byte and a 2-byte middle segment, all-1-byte; then random header blocks from the ref lane's grammar under random segmentations; "+
 			"readContinuedLineSlice is called until the blank line / first error and every returned slice is copied at return time: compared with the explicit-array bufio model (lines by content, ending, unread rest); "+
+			"the same with response-header dump on (the ReadSlice-based dumping readLine closure) must give the same answer; "+
 			"second opinion: fork readMIMEHeader = net/textproto ReadMIMEHeader on the same segments; non-trivial = at least one line was returned")
 	cnt := &c04Counter{s: s, m: map[string]int{}}
 	r := s.Rand()
 	run := func(stream string, segs [][]byte, B int) {
-		ans, n := c04AliasFork(segs, B)
+		ans, n := c04AliasFork(segs, B, false)
+		ansDump, _ := c04AliasFork(segs, B, true)
 		var hs []string
 		for _, sg := range segs {
 			hs = append(hs, string(sg))
@@ -170,6 +181,14 @@ func TestVerif_C04_alias(t *testing.T) {
 		}
 		s.Case(fmt.Sprintf("c04alias %d %s", B, verifh.HexList(hs)), ans, ok, "", n > 0,
 			fmt.Sprintf("B=%d segments %q -> %s", B, hs, c04Short(ans)))
+		if ansDump != ans {
+			// response-header dump on: the same lines must come back (judged by the same model line)
+			cnt.Count("dump-on-differs")
+			s.Case(fmt.Sprintf("c04alias %d %s", B, verifh.HexList(hs)), ansDump, false, "", n > 0,
+				fmt.Sprintf("B=%d segments %q, response-header dump ON -> %s (dump off -> %s)", B, hs, c04Short(ansDump), c04Short(ans)))
+		} else {
+			cnt.Count("dump-on-same")
+		}
 	}
 	for _, h := range c04AliasHeads() {
 		for _, B := range []int{16, 17, 32, 64} {
@@ -227,7 +246,7 @@ func TestVerif_C04_alias(t *testing.T) {
 		cnt.Count("random")
 	}
 	s.Finish()
-	for _, need := range []string{"end-blank", "end-invalid", "end-eof", "segment-ends-one-byte-into-line", "every-position", "random"} {
+	for _, need := range []string{"end-blank", "end-invalid", "end-eof", "segment-ends-one-byte-into-line", "every-position", "random", "dump-on-same"} {
 		if cnt.m[need] == 0 {
 			t.Errorf("C04/alias generator never reached bucket %q", need)
 		}
